@@ -58,6 +58,11 @@ func secureStacks(thorough bool) []stackFactory {
 // c04Honest: all-pairs traffic with >=6 distinct keys; inside every callback the source's key is looked up with a cancelled
 // context and compared with the true sender's key; then wrong-identity addresses.
 func c04Honest(r *ev.Run, sf stackFactory, g *rng.R, caseID string) {
+	c04HonestAs(r, sf, g, caseID, "C04")
+}
+
+// c04HonestAs: the same workload reporting under another property's name (C05 uses it for the p2pkeswarm layer).
+func c04HonestAs(r *ev.Run, sf stackFactory, g *rng.R, caseID, prop string) {
 	o := stackOptsFor(sf.Name, g)
 	o.n = 6
 	st, err := sf.Build(o)
@@ -73,7 +78,7 @@ func c04Honest(r *ev.Run, sf stackFactory, g *rng.R, caseID string) {
 	var delivered atomic.Int64
 	viol := func(sig, desc string, d map[string]any) {
 		d["stack"] = name
-		r.Violate("C04/"+sig+"/"+name, caseID, desc, d)
+		r.Violate(prop+"/"+sig+"/"+name, caseID, desc, d)
 	}
 	check := func(node *Node, m Msg, what string) {
 		p := append([]byte{}, m.Payload...)
